@@ -80,6 +80,21 @@ pub fn run(ctx: &Ctx) {
     if let Some(v) = replay_input(ctx) {
         let spans: Vec<(usize, usize)> = serde_json::from_value(v["spans"].clone()).unwrap_or_default();
         eval(&mut sess, &spans, "replay");
+        if let Some(t) = v["js_text"].as_str() {
+            use harper_wasm::{Dialect as WDialect, Language, Linter as WLinter};
+            let mut js = WLinter::new(WDialect::American);
+            if let Ok(out) = guarded(|| js.lint(t.to_string(), Language::Plain)) {
+                'outer: for a in 0..out.len() {
+                    for b in a + 1..out.len() {
+                        let (x, y) = (out[a].span(), out[b].span());
+                        if x.start < y.end && y.start < x.end {
+                            sess.fail("js-overlap", format!("harper_wasm::Linter::lint reports [{},{}) and [{},{}), which share a character", x.start, x.end, y.start, y.end), v.clone(), None);
+                            break 'outer;
+                        }
+                    }
+                }
+            }
+        }
         sess.nontrivial("replay-a");
         sess.nontrivial("replay-b");
         sess.finish("replay of one recorded input", false, json!({}));
@@ -159,8 +174,76 @@ pub fn run(ctx: &Ctx) {
         }
         eval(&mut sess, &spans, "real-lints");
     }
+    // 5. the JS-facing API (`harper_wasm::Linter::lint`, built natively): what it reports must be
+    //    pairwise disjoint AND be exactly the model's remove_overlaps of the group's raw lints.
+    //    Texts with NESTED lints: a sentence of more than 40 words (LongSentences covers it) with
+    //    two or more unknown words and repeated words inside.
+    {
+        use harper_wasm::{Dialect as WDialect, Language, Linter as WLinter};
+        let mut js = WLinter::new(WDialect::American);
+        let typos = ["gardn", "mornng", "teh", "recieve", "the the", "an apple an apple", "3 apples"];
+        let njs = if ctx.tier == Tier::Thorough { 1500 } else { 150 };
+        for i in 0..njs {
+            let mut words: Vec<String> = vec![];
+            while words.len() < 42 + rng.below(20) {
+                let sn = sents[rng.below(sents.len())].trim_end_matches(['.', '!', '?']).to_string();
+                words.extend(sn.split(' ').map(|w| w.to_string()));
+                words.push("and".into());
+            }
+            for _ in 0..rng.range(2, 4) {
+                let at = rng.below(words.len());
+                words.insert(at, rng.pick(&typos).to_string());
+            }
+            let text = format!("{}.", words.join(" "));
+            let doc = Document::new_plain_english(&text, &dict);
+            let Ok(raw) = guarded(|| group.lint(&doc)) else { continue };
+            let Ok(out) = guarded(|| js.lint(text.clone(), Language::Plain)) else {
+                sess.count("js:lint-panicked(C01)");
+                continue;
+            };
+            let spans: Vec<(usize, usize)> = raw.iter().map(|l| (l.span.start, l.span.end)).collect();
+            let op = format!("ro {}", show(&mk(&spans)));
+            // name every reported lint by the index of the raw lint it is (span and message)
+            let mut used = vec![false; raw.len()];
+            let mut named = vec![];
+            let mut invented = None;
+            for l in &out {
+                let sp = l.span();
+                let m = l.message();
+                match (0..raw.len()).find(|&k| !used[k] && raw[k].span.start == sp.start && raw[k].span.end == sp.end && raw[k].message == m) {
+                    Some(k) => {
+                        used[k] = true;
+                        named.push(format!("{}:{}:{}", sp.start, sp.end, k));
+                    }
+                    None => invented = Some((sp.start, sp.end)),
+                }
+            }
+            let case = sess.k(&op, format!("ok {}", named.join(" ")).trim_end());
+            sess.count("origin:js-api");
+            let nested = spans.iter().any(|a| spans.iter().filter(|b| *b != a && a.0 <= b.0 && b.1 <= a.1).count() >= 2);
+            sess.count(if nested { "js:two-lints-nested-in-one" } else { "js:no-double-nesting" });
+            if i < 2 {
+                sess.sample(json!({"js_text": text, "raw_spans": spans}));
+            }
+            if let Some(sp) = invented {
+                sess.fail("js-invented", format!("Linter::lint reports {:?}, which is not a lint of the group", sp), json!({"js_text": text, "spans": spans}), Some(case));
+            }
+            'outer: for a in 0..out.len() {
+                for b in a + 1..out.len() {
+                    let (x, y) = (out[a].span(), out[b].span());
+                    if x.start < y.end && y.start < x.end {
+                        sess.fail("js-overlap", format!("harper_wasm::Linter::lint reports [{},{}) and [{},{}), which share a character", x.start, x.end, y.start, y.end), json!({"js_text": text, "spans": spans}), Some(case));
+                        break 'outer;
+                    }
+                }
+            }
+            if nested {
+                sess.nontrivial(&format!("js|{}", text));
+            }
+        }
+    }
     sess.finish(
-        "corpus; all lists of ≤4 spans with endpoints ≤3 (quick) / ≤4 (thorough), exhaustively; random lists of 2–24 spans (nested, touching, equal, zero-width, duplicated); span lists of real lints (all rules on) of rule-test sentences. Non-trivial = at least one lint dropped; distinct by the op line.",
+        "corpus; all lists of ≤4 spans with endpoints ≤3 (quick) / ≤4 (thorough), exhaustively; random lists of 2–24 spans (nested, touching, equal, zero-width, duplicated); span lists of real lints (all rules on) of rule-test sentences; harper_wasm::Linter::lint on sentences of > 40 words with several unknown / repeated words inside (disjoint, and = the model's remove_overlaps of the group's raw lints). Non-trivial = at least one lint dropped; distinct by the op line.",
         true,
         json!({"exhaustive_scope": format!("lists of ≤4 spans, endpoints ≤{}", maxe)}),
     );
